@@ -410,11 +410,11 @@ _ERRS = []
 _WARNS = []
 for _COL, _DT in self.data.dtypes.items():
     if not np.issubdtype(_DT, np.number):
-        ___
-        _ERRS.append(__M1)
+        _E = __M1
+        _ERRS.append(_E)
 if self.data.isnull().values.any():
-    ___
-    _ERRS.append(__M2)
+    _E = __M2
+    _ERRS.append(_E)
 return (_ERRS, _WARNS)
 """) is not None
     ctx.add('C12.R7', 'Database._audit', ok, da_, 'every column must be numeric and no value may be NaN' if ok else 'the data audit no longer tests dtype and NaN for all columns', 'audit')
